@@ -73,7 +73,8 @@ OtChain(i, k, m) ==
            ELSE KosReceiverSess(k, m) \o KosSenderSess(k, m)
 
 Fabitn(n, i, l) ==
-  LET m == l + 3 * RHO IN
+  \* 3 RHO test combinations, masked by 3 RHO + RHO discarded bits (fix: aBit test masking, DESIGN 11)
+  LET m == l + 4 * RHO IN
   << [k \in 1..(n - 1) |-> OtChain(i, Peers(n, i)[k], m)] >>
   \o << UniG(n, i, "fabitn", 8 + 17 * 3 * RHO) >> \o BcastVer(n, i, "fabitn")
 
